@@ -80,6 +80,8 @@ type CallObs struct {
 	RespTrailer  http.Header
 	RawHeader    http.Header // uncopied
 	RawTrailer   http.Header
+	PeekHeader   http.Header // ResponseHeader() read before the first Receive
+	Peeked       bool
 	CancelStep   int
 	CancelTime   time.Time
 	StartTime    time.Time
@@ -411,6 +413,11 @@ func (e *ErrPlan) build(ctx context.Context) error {
 			ce.Meta().Add(k, v)
 		}
 	}
+	for k, vs := range e.ProxyMeta {
+		for _, v := range vs {
+			ce.Meta().Add(k, v)
+		}
+	}
 	return ce
 }
 
@@ -445,6 +452,9 @@ func (p *PanicPlan) value() any {
 			A string
 			B int
 		}{p.Text, 7}
+	case 5:
+		// an ordinary error that merely wraps the sentinel is not the sentinel
+		return fmt.Errorf("%s: %w", p.Text, http.ErrAbortHandler)
 	default:
 		return http.ErrAbortHandler
 	}
@@ -832,6 +842,11 @@ func (w *World) runCall(t *core.Task, o *CallObs) {
 				break
 			}
 			switch op.Op {
+			case "peekhdr":
+				w.opGate(o, "peekhdr")
+				t.SetWhere(p.ID + " ResponseHeader")
+				o.PeekHeader = stream.ResponseHeader().Clone()
+				o.Peeked = true
 			case "recv", "recvall":
 				for {
 					w.opGate(o, "recv")
@@ -888,6 +903,11 @@ func (w *World) runCall(t *core.Task, o *CallObs) {
 					r := OpRec{Op: "send", Arg: op.Arg, Start: stepsNow(w.S), StartT: time.Now()}
 					r.Err = stream.Send(mkMsg(p.ReqMsgs[op.Arg]))
 					w.rec(o, rcv, r)
+				case "peekhdr":
+					w.opGate(o, "peekhdr")
+					t.SetWhere(p.ID + " ResponseHeader")
+					o.PeekHeader = stream.ResponseHeader().Clone()
+					o.Peeked = true
 				case "closereq":
 					w.opGate(o, "closereq")
 					t.SetWhere(p.ID + " CloseRequest")
